@@ -185,6 +185,17 @@ func runC13(c *engine.Ctx) {
 		if c.Mine() {
 			for i := 0; i < n; i++ {
 				evalC13(c, c13Case{Name: base.name, M: base.m, Pos: nil, Type: 0, CritImpl: i})
+				// the critical flag on an implemented payload together with unsupported payloads before / behind it:
+				// the flag belongs to its own payload only
+				for p := 0; p <= n; p++ {
+					for _, t := range []uint8{1, 49, 200} {
+						evalC13(c, c13Case{Name: base.name, M: base.m, Pos: []int{p}, Type: t, Len: 3, Content: 1, CritImpl: i})
+						evalC13(c, c13Case{Name: base.name, M: base.m, Pos: []int{p}, Type: t, Len: 0, Content: 0, Critical: true, CritImpl: i})
+						if bi%9 == 0 {
+							evalC13(c, c13Case{Name: base.name, M: base.m, Pos: []int{p}, Type: t, Len: 3, Content: 1, CritImpl: i, InSK: true})
+						}
+					}
+				}
 			}
 		}
 	}
